@@ -156,6 +156,10 @@ fn run(ctx: &Ctx) -> Run {
                 let k = (i as usize * threads + w) % 60;
                 let pat = gen::S_PATTERNS[(i as usize / 60 + w) % gen::S_PATTERNS.len()];
                 let s = gen::s_pattern(&mut rng, (res - 1) as u32, pat);
+                if i % 2 == 1 {
+                    prime_history(&mut rng, MCell::new(res, (k / 5) as u8, (k % 5) as u8, s));
+                    run.count("stratified.primed_with_a_relative");
+                }
                 check_cell(run, &mut rng, MCell::new(res, (k / 5) as u8, (k % 5) as u8, s), "stratified", 3);
                 run.count(&format!("stratified.res{res:02}"));
             }
